@@ -147,6 +147,7 @@ func init() {
 			{Name: "prefixes", Run: prefixUnit("newick", false, 0)},
 			{Name: "edges", Run: edgeUnit("newick")},
 			{Name: "fieldlens", TShards: 2, Run: lengthUnit("newick")},
+			{Name: "parallel", Race: true, Run: codecParallel("newick")},
 		},
 	})
 }
